@@ -84,7 +84,7 @@ func (nb NoRetainedIterBuffer) aliasSummaries(r *Run) map[*types.Func]int {
 					}
 					return -1
 				}
-				ast.Inspect(f.Body(), func(x ast.Node) bool {
+				InspectBody(f, func(x ast.Node) bool {
 					if _, isLit := x.(*ast.FuncLit); isLit {
 						return false
 					}
